@@ -1,3 +1,4 @@
+
 (* C15 — Crash consistency: an interrupted command never breaks the repository.
    Crash semantics of the model: the process stops between two modifying
    effects; the disk then holds a PREFIX of the command's effect trace, each
@@ -9,7 +10,15 @@ From Coq Require Import Strings.String Strings.Byte.
 From Coq Require Import List NArith.
 From Goit Require Import Bytes World Repo MonadFacts.
 From Goit Require Import Inv ConnectedFacts.
+From Goit Require Import Bridge.
 Import ListNotations.
+
+(* T0 (tie to the source): every regexp literal of the current Go source denotes
+   the same language, with the same anchoring, as the pattern of the model — proved
+   by running the verified equivalence checker on SrcRegex.v, which is regenerated
+   from /repo on every run (see Bridge.v) *)
+Theorem C15_source_patterns_are_the_models : source_patterns_agree.
+Proof. exact source_patterns. Qed.
 
 Theorem C15_world_is_trace_applied : forall a w w' o tr,
   step a w = (w', o, tr) ->
@@ -61,3 +70,4 @@ Print Assumptions C15_world_is_trace_applied.
 Print Assumptions C15_crash_state_is_a_prefix.
 Print Assumptions C15_crash_safe.
 Print Assumptions C15_rename_window_closed.
+Print Assumptions C15_source_patterns_are_the_models.
